@@ -468,7 +468,7 @@ static void mps_err (
 		ILL_FAILfalse (state->p >= state->line, "state->p >= state->line");
 		at = state->p - state->line;
 	}
-	vsprintf (error_desc, format, args);
+	vsnprintf (error_desc, sizeof (error_desc) - 1, format, args);
 	slen = strlen (error_desc);
 	if ((slen > 0) && error_desc[slen - 1] != '\n')
 	{
